@@ -9,6 +9,8 @@ import (
 
 type C01Case struct {
 	Root V `json:"root"`
+	// Muts: mutations of (nested) containers after the first round trip; the round trip is then repeated
+	Muts []CloneMut `json:"muts,omitempty"`
 }
 
 func genTreeCase(t *rapid.T) V {
@@ -22,7 +24,13 @@ func genTreeCase(t *rapid.T) V {
 	return GenRoot(t, cfg)
 }
 
-func GenC01(t *rapid.T) *C01Case { return &C01Case{Root: genTreeCase(t)} }
+func GenC01(t *rapid.T) *C01Case {
+	c := &C01Case{Root: genTreeCase(t)}
+	if oneIn(t, 5, "remutate") {
+		c.Muts = genNestedMuts(t)
+	}
+	return c
+}
 
 // parseRoot parses text with the parser matching the root kind.
 // The call runs under the termination watchdog of C04 so that a parser that
@@ -65,6 +73,35 @@ func CheckC01(c *C01Case, st *Stats) error {
 	if c.Root.K != KList && c.Root.K != KObject {
 		return nil
 	}
+	orig := Build(c.Root)
+	if err := roundTrip(orig, c.Root, st); err != nil {
+		return err
+	}
+	for i, m := range c.Muts {
+		ids := Idents(orig)
+		target := ids[m.Node%len(ids)]
+		var applied bool
+		if p, panicked := catch(func() { applied = applyCloneMut(orig, target, m) }); panicked {
+			return errf("mutation %d (%s) panicked: %v", i, m.Op, p)
+		}
+		if !applied {
+			continue
+		}
+		now, err := Snap(orig)
+		if err != nil {
+			return err
+		}
+		st.Count("roundtrip_again_after." + m.Op)
+		if err := roundTrip(orig, now, NewStats()); err != nil {
+			return errf("after a %s on a nested container: %v", m.Op, err)
+		}
+	}
+	return nil
+}
+
+// roundTrip serialises orig (whose content is root), parses the text and compares.
+func roundTrip(orig any, root V, st *Stats) error {
+	c := &C01Case{Root: root}
 	if leafStats(st, "", c.Root) {
 		st.MarkNonTrivial()
 	}
@@ -72,7 +109,6 @@ func CheckC01(c *C01Case, st *Stats) error {
 	if d := c.Root.Depth(); d >= 20 {
 		st.Count("depth>=20")
 	}
-	orig := Build(c.Root)
 	text := stringOf(orig)
 	parsed, err := parseRoot(c.Root.K, text)
 	if err != nil {
